@@ -79,13 +79,8 @@ func match(pat string, mode Mode, s string) (string, error) {
 		for mode&Smallest != 0 && mode&Suffix != 0 {
 			s = s[len(s)-len(m[0]):]
 			r, w := utf8.DecodeRuneInString(s)
-			if r == utf8.RuneError {
-				if w == 0 {
-					break
-				} else {
-					m[0] = m[0][w:]
-					continue
-				}
+			if r == utf8.RuneError && w == 0 {
+				break
 			}
 			sm := rx.FindStringSubmatch(s[w:])
 			if sm == nil {
